@@ -224,11 +224,39 @@ func IsKnown(prop, key string) (string, bool) {
 		if k.Status != "open" || k.Property != prop {
 			continue
 		}
-		if k.Key == key || (strings.HasSuffix(k.Key, "*") && strings.HasPrefix(key, strings.TrimSuffix(k.Key, "*"))) {
+		if k.Key == key || globMatch(k.Key, key) {
 			return k.What, true
 		}
 	}
 	return "", false
+}
+
+// globMatch matches key against a pattern in which '*' stands for any run of
+// characters other than '/'.
+func globMatch(pattern, key string) bool {
+	if !strings.Contains(pattern, "*") {
+		return false
+	}
+	pp, kk := strings.Split(pattern, "/"), strings.Split(key, "/")
+	if len(pp) != len(kk) {
+		return false
+	}
+	for i := range pp {
+		if pp[i] == "*" {
+			continue
+		}
+		if strings.Contains(pp[i], "*") {
+			parts := strings.SplitN(pp[i], "*", 2)
+			if !strings.HasPrefix(kk[i], parts[0]) || !strings.HasSuffix(kk[i], parts[1]) || len(kk[i]) < len(parts[0])+len(parts[1]) {
+				return false
+			}
+			continue
+		}
+		if pp[i] != kk[i] {
+			return false
+		}
+	}
+	return true
 }
 
 // TB is the subset of testing.TB / rapid.T the package needs.
